@@ -26,7 +26,7 @@ CLAIMS = {
         "copy propagation (x86_64) and symbolic-lane interpretation under the AAPCS64 for every operand placement (aarch64), "
         "strides and frame constants, load_imm, NaN-corner reduction of interval products, and - for the branch-free "
         "arithmetic and mask clauses of both back ends - symbolic lane semantics compared with the opcode's closed form, also "
-        "with the output aliased to an operand. The aarch64 code is never compiled on the x86_64 host: static analysis is all that sees it.",
+        "with the output aliased to an operand; the branching x86_64 single-point clauses (min / max / and / or / compare) by path summaries decided over every order type of their operands (infinities and -0.0 included). The aarch64 code is never compiled on the x86_64 host: static analysis is all that sees it.",
         "static analysis: table-agreement lint + dataflow / symbolic-lane abstract interpretation of hand-written assembly (x86_64 and aarch64)",
     ),
     "C04": _c(
@@ -36,7 +36,7 @@ CLAIMS = {
         "the new index), order parity of tape and choice walks, op accounting counts every output, result shares the parent's "
         "variable map; interval min/max choices are Left/Right only for strictly separated operands; the native choice protocol "
         "of the x86_64 and aarch64 tracing assemblers on every path (one choice recorded, flag iff decided, pointer advanced once, "
-        "value = chosen operand, NaN never decided); copy ops of simplified tapes in every evaluator.",
+        "value = chosen operand, NaN never decided; x86_64 choices agree with the interpreter's on every order type of the operands); copy ops of simplified tapes in every evaluator.",
         "static analysis: path/pairing and role-consistency lint over simplify's match arms",
     ),
     "C20": _c(
@@ -44,7 +44,7 @@ CLAIMS = {
         "whose value it stores, advances the choice iterator once, and derives the simplify flag from that choice; "
         "non-choice arms never touch either; the trace is returned iff the flag is set; the interval choice functions answer "
         "(NaN, Both) before deciding anything; the x86_64 and aarch64 native protocols record the same choices on every path "
-        "(strict, NaN-false branch conditions); advertised sizes / maps / counts are copied from their namesakes.",
+        "(strict, NaN-false branch conditions; for x86_64 also by path summaries over every order type of the operands); advertised sizes / maps / counts are copied from their namesakes.",
         "static analysis: per-arm pairing lint (choice iterator protocol) and return-shape guard",
     ),
 }
@@ -56,7 +56,7 @@ CLAIMS.update({
         "loop and the x86_64 interval assembler (dataflow: write discipline, alias/immediate hazards, call-helper copy "
         "propagation, choice protocol, callbacks, sibling constants), the aarch64 interval assembler (same dataflow; bounds of the "
         "branch-free clauses, all four corner products reduced NaN-safely, domain guards of recip / div / sqrt, abs / square "
-        "per sign class by symbolic lanes), the WGSL interval operations on lane summaries, and the homogeneous transform of boxes.",
+        "per sign class by symbolic lanes), the branching x86_64 interval clauses by path summaries decided over every order type of the bounds (enclosure of the operation's range, or NaN), the sin / cos quadrant tables cell by cell from the positions of the extrema, atan2's corner selection per sign class, the four-corner folds of product and quotient (loops unrolled symbolically), the WGSL interval operations on lane summaries, and the homogeneous transform of boxes (interpreted symbolically, any fast path under its guard).",
         "static analysis: variance/role lint over the syntax tree + dataflow over the hand-written assembly",
     ),
     "C05": _c(
@@ -66,19 +66,19 @@ CLAIMS.update({
         "(finite ordering / sign-class enumeration over the builder DSL, incl. the div_euclid emulation of Mod) the selected "
         "operand's derivative; deriv's cache is keyed by the node being differentiated; gradient interpreter loop; "
         "Transformable for Grad; x86_64 and aarch64 gradient assembler dataflow, and their add / sub / neg / mul / div / sqrt / "
-        "square / recip (aarch64 also abs / min / max) clauses against the chain rule on symbolic lanes.",
+        "square / recip / floor / ceil clauses against the chain rule on symbolic lanes, abs / min / max / compare by path summaries over the order types of the value lanes.",
         "static analysis: expression-identity obligations between source expressions (sympy) + table lint + asm dataflow",
     ),
     "C06": _c(
         "Static analysis of the 2D renderer: inside/outside fills only under strict upper()<0 / lower()>0 guards and never "
         "in pixel-perfect mode, children and pixels use the handle simplified by this tile's own trace, root grid / child "
-        "loops / tile-size invariants / assembly bounds cover the image, and pixel (i,j) is sampled at (corner+i, corner+j, z).",
+        "loops / tile-size invariants / assembly bounds cover the image, pixel (i,j) is sampled at (corner+i, corner+j, z), and the NaN-boxed pixel type reports a distance inside exactly under `v < 0.0` (a NaN of either sign is outside) with writer and reader agreeing on the bit fields.",
         "static analysis: guard-shape, coverage-arithmetic and role-consistency lint over the renderer's syntax tree",
     ),
     "C07": _c(
         "Static analysis of the 3D renderer: full/empty decisions only under strict guards, every z iteration descending "
         "with the matching first-hit search and index flip, depth = voxel index + 1, unchecked writes behind length "
-        "assertions, unit gradient seeds in axis order, and a merge clamp that compares with and assigns the grid depth.",
+        "assertions, unit gradient seeds in axis order, axis roles of the offsets split from a linear tile index, the keep-going protocol (only a filled tile stops the descent through a column of root tiles), and a merge clamp that compares with and assigns the grid depth.",
         "static analysis: guard-shape, ordering and clamp-consistency lint over the renderer's syntax tree",
     ),
     "C10": _c(
@@ -94,7 +94,7 @@ CLAIMS.update({
         "analysed Interval::new site can receive one NaN and one non-NaN bound; unreachable!() defaults are justified by the "
         "range of their scrutinee; panic-capable sites in the per-op data path equal a justified inventory; buffers are sized first; "
         "consumers decide only under strict comparisons; native call helpers (x86_64, aarch64) restore every pointer and register, "
-        "aarch64 branches stay inside their clause and callee-saved registers are back at `ret`.",
+        "aarch64 branches stay inside their clause and callee-saved registers are back at `ret`; no argument check answers Ok before the count was compared; simplification recounts surviving choices; native loads / stores move exactly one element.",
         "static analysis: float-class abstract interpretation of interval constructors + dominance/inventory lints",
     ),
     "C12": _c(
@@ -117,7 +117,7 @@ CLAIMS.update({
         "evaluators, the transform is applied in axis order, VarMap assigns an index once (get_or_insert) and only in "
         "insert, missing variables and short/ragged argument lists are errors, and Transformable for f32/Interval/Grad are "
         "the same homogeneous transform; native code (x86_64, aarch64) addresses slot i at i x bytes-per-slot; fresh variables "
-        "draw their index from a process-wide source.",
+        "draw their index from a process-wide source; the inner evaluator is handed only the scratch rows the binding loop filled and nothing can succeed before it; call helpers hand the variable pointer back.",
         "static analysis: axis/role-consistency and sibling-agreement lint",
     ),
     "C15": _c(
@@ -145,7 +145,7 @@ CLAIMS.update({
         "prefix-sum offsets, cells are full/empty only under strict interval guards and leaf corner masks are by identity; "
         "collapse guards (a multi-vertex child is never collapsed, a NaN gradient lane never enters the QEF and marks the leaf "
         "with the sentinel merge refuses); finished vertices return through the projective map and the sign of its determinant "
-        "reaches the triangle order. Manifoldness, QEF placement and the generated tables are out of static reach.",
+        "reaches the triangle order; the QEF algebra (accumulation of n n^T, n (n . p), (n . p)^2 and the mass point, re-centred solve, reported error) and the edge search (interpolation, bracket, midpoint, end points) by symbolic interpretation. Manifoldness, the rank decision of the QEF and the generated tables are out of static reach.",
         "static analysis: lattice-geometry consistency of the recursive dual walk + index/guard lints",
     ),
     "C09": _c(
@@ -177,7 +177,7 @@ CLAIMS.update({
         "Static analysis of the solver: only Free parameters get a gradient slot and a result, Fixed ones are constants at "
         "their value in both evaluators, the three-per-sample packing agrees between writer lanes, reader lanes and batch "
         "width, an all-zero residual ends the iteration before any change, and a parameter set with no free entry never "
-        "reads the empty gradient batch. Convergence and residual size are out of static reach.",
+        "reads the empty gradient batch; the Levenberg-Marquardt step solves (J^T J + damping D) delta = J^T r on symbolic matrices with a damping that grows on a worse trial and shrinks on an accepted one; every equation is visited in every iteration. Convergence and residual size are out of static reach.",
         "static analysis: packing-table agreement and exit-ordering lint",
     ),
 })
@@ -195,7 +195,9 @@ ENGINES = [
      "kind_free_text": "repository-specific static rules (Python) over the syntax trees: table agreement, role/axis "
      "consistency, sibling agreement, pairing/protocol, field coverage, guard shape; dataflow and symbolic-lane "
      "interpretation of the x86_64 and aarch64 dynasm clauses (fv/asm*.py, fv/a64*.py, fv/x86sem.py); float-class abstract "
-     "interpretation (fv/nanflow.py); sympy identities (fv/sym.py); WGSL front end (fv/wgsl*.py)"},
+     "interpretation (fv/nanflow.py); sympy identities (fv/sym.py); WGSL front end (fv/wgsl*.py); path summaries of the branching "
+     "x86_64 clauses decided over order types (fv/x86pw.py); a symbolic mini-interpreter for small numeric bodies (fv/corners.py, fv/qef.py); "
+     "quadrant / corner tables (fv/quadrant.py)"},
 ]
 
 NOTES = (
